@@ -837,8 +837,17 @@ func (p *Path) parseFloat(s StrV, bits int, site ssa.Instruction) Value {
 		var fm byte
 		var prec, fbits int
 		fmt.Sscanf(s.A[0].Prov.Fn, "FormatFloat_%c_%d_%d", &fm, &prec, &fbits)
-		if prec == -1 && fbits == bits {
-			return TupleV{E: []Value{s.A[0].Prov.Args[0], IfaceV{}}}
+		if prec == -1 {
+			x := s.A[0].Prov.Args[0].(FloatV)
+			// the shortest text at fbits denotes x itself when x fits fbits,
+			// otherwise x narrowed to float32
+			if fbits == 32 && !x.Conc {
+				x = p.narrow32(x)
+			}
+			if bits == 32 && !x.Conc {
+				x = p.narrow32(x)
+			}
+			return TupleV{E: []Value{x, IfaceV{}}}
 		}
 	}
 	arr, off, ln := p.viewOf(s, site)
@@ -850,7 +859,11 @@ func (p *Path) parseFloat(s StrV, bits int, site ssa.Instruction) Value {
 	// contract facts: the empty string never parses
 	p.assert(smt.Implies(smt.Eq(ln, smt.Int(0)), smt.Not(ok)))
 	if p.branch(ok) {
-		return TupleV{E: []Value{FloatV{Tok: smt.App(valf, smt.SInt, arr, off, ln), Prov: &Prov{Fn: "ParseFloat", Args: []Value{s, mkInt(int64(bits))}}}, IfaceV{}}}
+		fb := 64
+		if bits == 32 {
+			fb = 32
+		}
+		return TupleV{E: []Value{FloatV{Tok: smt.App(valf, smt.SInt, arr, off, ln), Bits: fb, Prov: &Prov{Fn: "ParseFloat", Args: []Value{s, mkInt(int64(bits))}}}, IfaceV{}}}
 	}
 	msg := strConcat(strConcat(constStr(`strconv.ParseFloat: parsing "`), s), constStr(`": invalid syntax`))
 	return TupleV{E: []Value{FloatV{Conc: true}, p.mkErr(msg, nil)}}
